@@ -150,23 +150,27 @@ def oracle_recording(strategy, scitype):
         Xv = None if X is None else X.to_numpy()
         fits = [e for e in doubles.LOG[base_n:] if e[0] == "fit"]
         # ---------------- training rows
-        if strategy == "recursive":
-            F, T = ref_rows(yv, Xv, wl, [1], scitype)
-            exp_fits = [(F, T[:, 0])]
-        elif strategy == "direct":
-            F, T = ref_rows(yv, Xv, wl, steps, scitype)
-            exp_fits = [(F, T[:, i]) for i in range(len(steps))]
-        elif strategy == "multioutput":
-            F, T = ref_rows(yv, Xv, wl, steps, scitype)
-            exp_fits = [(F, T)]
-        else:  # dirrec
-            F, T = ref_rows(yv, None, wl, steps, "time-series-regressor")
-            exp_fits = []
-            for i in range(len(steps)):
-                Fi = np.concatenate([F, T[:, None, :i]], axis=2)
-                if tab:
-                    Fi = Fi.reshape(Fi.shape[0], -1)
-                exp_fits.append((Fi, T[:, i]))
+        def expected_fits(yv, Xv):
+            if strategy == "recursive":
+                F, T = ref_rows(yv, Xv, wl, [1], scitype)
+                exp_fits = [(F, T[:, 0])]
+            elif strategy == "direct":
+                F, T = ref_rows(yv, Xv, wl, steps, scitype)
+                exp_fits = [(F, T[:, i]) for i in range(len(steps))]
+            elif strategy == "multioutput":
+                F, T = ref_rows(yv, Xv, wl, steps, scitype)
+                exp_fits = [(F, T)]
+            else:  # dirrec
+                F, T = ref_rows(yv, None, wl, steps, "time-series-regressor")
+                exp_fits = []
+                for i in range(len(steps)):
+                    Fi = np.concatenate([F, T[:, None, :i]], axis=2)
+                    if tab:
+                        Fi = Fi.reshape(Fi.shape[0], -1)
+                    exp_fits.append((Fi, T[:, i]))
+            return exp_fits
+
+        exp_fits = expected_fits(yv, Xv)
         if len(fits) != len(exp_fits):
             discs.append(D("n_fit_calls", "%s: %d fit calls, expected %d" % (strategy, len(fits), len(exp_fits))))
             return discs
@@ -294,6 +298,30 @@ def oracle_recording(strategy, scitype):
             c2 = int(y.index[end - 1])
             if isinstance(p2, pd.Series) and [int(v) for v in p2.index] != [c2 + h for h in steps]:
                 discs.append(D("forecast_index", "after moving the cutoff back: index %s expected %s" % (list(p2.index), [c2 + h for h in steps])))
+        if X is not None and case.get("update_refit") and not discs and not case.get("fh_abs"):
+            # new observations WITH their exogenous values arrive and the parameters are updated
+            # (the default): the regressors are trained again, on the windows of everything
+            # observed so far - target and exogenous columns alike
+            k = case["update_refit"]
+            y_new = pd.Series([float(yv[-1]) + 1.25 * (q + 1) for q in range(k)], index=gen.int_index(int(y.index[-1]) + 1, k, case["index_kind"]))
+            X_new = pd.DataFrame({c_: [float(Xv[-1, jx]) - 0.75 * (q + 1) for q in range(k)] for jx, c_ in enumerate(X.columns)}, index=y_new.index)
+            n_before = len(doubles.LOG)
+            u = sut(f.update, y_new.copy(), X_new.copy())
+            if isinstance(u, Raised):
+                return [unexpected(u, "update with exogenous data")]
+            ctx.label("update_with_exogenous_refit")
+            fits2 = [e for e in doubles.LOG[n_before:] if e[0] == "fit"]
+            want2 = expected_fits(np.concatenate([yv, y_new.to_numpy()]), np.concatenate([Xv, X_new.to_numpy()], axis=0))
+            if len(fits2) != len(want2):
+                discs.append(D("n_fit_calls", "%s after update: %d fit calls, expected %d" % (strategy, len(fits2), len(want2))))
+            else:
+                for i2, (got2, (eF2, eT2)) in enumerate(zip(fits2, want2)):
+                    if not arr_eq(got2[2], eF2):
+                        discs.append(D("train_features_differ_after_update", "%s/%s fit %d: got shape %s expected %s" % (
+                            strategy, scitype, i2, np.shape(got2[2]), np.shape(eF2))))
+                        break
+            if discs:
+                return discs
         rv = case.get("revise")
         if rv and X is None and not discs and not back and not case.get("fh_abs") and n >= wl + 1:
             # a batch that re-delivers the last known observations with corrected values plus one new
@@ -423,7 +451,7 @@ def cases(draw, strategy=None, allow_exog=True, feasible_bias=9):
         "dtype": draw(st.sampled_from(["float64", "float64", "int64"])),
         "prefit": draw(st.integers(0, 4)) == 0,
         "revision": draw(st.sampled_from([None, None, 1, 2, 3])), "fh_abs": draw(st.integers(0, 3)) == 0, "wl_via_set_params": draw(st.integers(0, 3)) == 0,
-        "n_exog": 0, "entry": draw(st.sampled_from(["make_reduction", "make_reduction", "make_reduction", "ReducedForecaster", "ReducedRegressionForecaster", "class"])),
+        "n_exog": 0, "update_refit": draw(st.sampled_from([0, 1, 2])), "entry": draw(st.sampled_from(["make_reduction", "make_reduction", "make_reduction", "ReducedForecaster", "ReducedRegressionForecaster", "class"])),
     }
     c["n_exog"] = draw(st.integers(0, 3)) if allow_exog else 0
     return c
